@@ -70,6 +70,19 @@ class BalancedMoveRule(BaseRule):
             return _TYPE_CONST_OF_MULTIPLY
 
         if isinstance(node.parent, AddExpression):
+            # Only a top-level addend of its side can move across the equals sign,
+            # not one nested inside a product, quotient, power, negation or subtrahend
+            child: MathExpression = node.parent
+            while child.parent is not None and (
+                isinstance(child.parent, AddExpression)
+                or (
+                    isinstance(child.parent, SubtractExpression)
+                    and child.parent.left is child
+                )
+            ):
+                child = child.parent
+            if child.parent is not root:
+                return None
             if isinstance(node, ConstantExpression) or get_term_ex(node) is not None:
                 return _TYPE_ADDITION
 
